@@ -19,6 +19,7 @@ independent RFC 9001/9369 implementation vlib.refquic:
          baseline (events, delivered bytes).
 """
 import itertools
+import os
 import struct
 
 from vlib import build, core, netsim, peerbot
@@ -622,7 +623,6 @@ class Mutator(netsim.Monitor):
         raw = bytearray(data[pk.start : pk.end])
         tail = bytes(len(data) - pk.end) if pk.form == "long" and pk.type != "retry" else b""
         self.meta = dict(world=self.world, delivery=i, packet=self.k, ptype=pk.type, receiver=ep.name, size=len(raw))
-        first_for_server = ep.name == "s" and conn._state.name == "FIRSTFLIGHT"
         if pk.start:
             # packets coalesced before the altered one behave as in the baseline
             conn.receive_datagram(data[: pk.start], addr, now=w.now)
@@ -637,14 +637,15 @@ class Mutator(netsim.Monitor):
             m = bytes(raw) + tail
             raw[off] = old
             # what never reaches this connection / is not a protected packet any more
-            if m[0] & 0x80 and m[1:5] == b"\x00\x00\x00\x00" and ep.name == "c":
+            if m[0] & 0x80 and m[1:5] == b"\x00\x00\x00\x00" and ep.name == "c" and _valid_vn(m) \
+                    and conn._state.name == "FIRSTFLIGHT":
+                # a well-formed Version Negotiation packet is not a protected packet, and a client that has not processed
+                # any packet yet may act on it (RFC 9000 6.2); a malformed one, or one that arrives later, is fed
                 self.skipped["becomes_version_negotiation"] = self.skipped.get("becomes_version_negotiation", 0) + 1
                 continue
-            if first_for_server:
-                mp, _ = RQ.split_datagram(m, 8)
-                if not mp or mp[0].type != "initial" or mp[0].dcid != pk.dcid or mp[0].version not in (V1, V2):
-                    self.skipped["not_routed_to_this_connection"] = self.skipped.get("not_routed_to_this_connection", 0) + 1
-                    continue
+            # (mutants of a server's very first datagram are fed as well, whatever they changed - type, DCID, version:
+            # a caller that routes by peer address hands them to this connection, and the genuine datagram that follows
+            # must still be taken)
             self.fed += 1
             try:
                 conn.receive_datagram(m, addr, now=w.now)
@@ -659,6 +660,19 @@ class Mutator(netsim.Monitor):
                 self.hit = (off, val, "0x%02x -> 0x%02x changed: %s%s" % (old, val, ", ".join(changed), (" (events %s)" % evs) if evs else ""),
                             dict(monitor="altered_packet_had_effect", effect=changed[0] if not evs else "event:" + evs[0]))
                 return
+
+
+def _valid_vn(m):
+    """RFC 9000 17.2.1: long form, version 0, two length-prefixed connection IDs, then one or more 32-bit versions."""
+    if len(m) < 7:
+        return False
+    p = 5
+    for _ in range(2):
+        if p >= len(m):
+            return False
+        p += 1 + m[p]
+    rest = len(m) - p
+    return rest >= 4 and rest % 4 == 0
 
 
 def _accepted(conn, ptype, pn):
@@ -998,9 +1012,8 @@ def run(ctx):
     ctx.assumptions += [
         "cryptography's AES-GCM / ChaCha20-Poly1305 / AES-ECB / ChaCha20 primitives are the trusted base of refquic",
         "a mutant is fed at packet granularity: [packets before it, genuine][altered packet + zero padding in place of later packets]",
-        "mutants that turn a long-header packet into a syntactically valid Version Negotiation packet (version field 0) for a client are "
-        "skipped: VN packets are not protected packets; mutants of a server's very first datagram that a front end would not route to "
-        "this connection (type / DCID / version changed) are skipped as well; both are counted",
+        "mutants that turn a long-header packet into a WELL-FORMED Version Negotiation packet (version field 0, whole number of versions) "
+        "for a client that has not processed any packet yet are skipped (counted): VN packets are not protected packets",
         "packets above 1500 bytes are outside the C helpers' contract (C04) and not sealed here",
         "on exact ties decode_packet_number may return either candidate",
     ]
